@@ -26,7 +26,7 @@ ASSUMPTIONS = ["comparison is modulo exclude=True dataclass fields (they are not
 ANCHORS = ['convert:convert', 'convert:into_data', 'convert:from_data', 'converters:Converter.into_data',
            'converters:DatetimeConverter.try_convert', 'converters:PatternConverter.try_convert',
            'classes:_make_init', 'converters:UnionConverter.into_data']
-MIN_COUNTERS = {'quick': {'fixed_point_checked': 25000, 'native_values': 8000, 'ctor_checked': 2000, 'idempotence_checked': 8000, 'bare_container_checks': 2000}}
+MIN_COUNTERS = {'quick': {'fixed_point_checked': 25000, 'native_values': 8000, 'ctor_checked': 2000, 'idempotence_checked': 8000, 'bare_container_checks': 2000, 'pathlike_checks': 300}}
 
 
 def in_scope(ty):
@@ -359,3 +359,35 @@ def run(ctx):
                 return
 
     drive.for_each_case(ctx, 'bare', max(40, ctx.budget // 10), body_bare, gen=lambda c, r: Ty('int'))
+
+    # path-like objects that are not pathlib paths (a class with only __fspath__, what os.PathLike promises): written as what the
+    # object says its path is (os.fspath), so that the same class - or a pathlib type - reads it back
+    def body_pathlike(i, rng, ty, T):
+        import os as _os
+        import pathlib as _pl
+        import typing as _t
+
+        class Resource:
+            def __init__(self, p): self.p = _os.fspath(p)
+            def __fspath__(self): return self.p
+            def __eq__(self, o): return type(o) is Resource and o.p == self.p
+            def __hash__(self): return hash(('res', self.p))
+            def __repr__(self): return f"Resource({self.p!r})"
+        text = rng.choice(('data/in.txt', '/abs/x', 'x.txt', 'a b/c'))
+        x = Resource(text)
+        Holder = type(f"PL{next(_serial)}", (env.PaneBase,), {'__annotations__': {'f': Resource, 'g': _pl.PurePosixPath}, '__module__': __name__})
+        rows = [('convert(x, Resource)', lambda: env.convert(x, Resource), x), ('into_data(x, Resource)', lambda: env.into_data(x, Resource), text),
+                ('convert(x, PurePosixPath)', lambda: env.convert(x, _pl.PurePosixPath), _pl.PurePosixPath(text)),
+                ('convert([x], List[Resource])', lambda: env.convert([x], _t.List[Resource]), [x]),
+                ('Holder(f=x, g=x)', lambda: (lambda h: (h.f, h.g))(Holder(f=x, g=x)), (x, _pl.PurePosixPath(text))),
+                ('from_data(text, Resource)', lambda: env.from_data(text, Resource), x)]
+        for label, call, want in rows:
+            o = observe(call)
+            ctx.count('pathlike_checks')
+            ctx.case(('pathlike', label[:14], o.kind), nontrivial=True)
+            if o.kind != 'value' or o.val != want or type(o.val) is not type(want):
+                ctx.violation('typed-value-is-fixed-point', 'pathlike', i, {'value': short(x), 'call': label, 'result': o.brief()[:200], 'expected': short(want)},
+                              mech='path-like-object-written-by-str-not-fspath')
+                return
+
+    drive.for_each_case(ctx, 'pathlike', 20, body_pathlike, gen=lambda c, r: Ty('int'))
